@@ -199,6 +199,14 @@ func nativeReplay(verif, repo, prop string, v *Violation, path string) (bool, st
 			}
 		}
 	}
+	// choices the Go runtime takes by itself (which pooled object sync.Pool hands out, which goroutine
+	// runs next) cannot be forced natively: without a native reproduction such a path stays an
+	// engine-replayed counterexample, it is not evidence of an engine/stub mismatch
+	for _, ch := range v.Choices {
+		if ch.Name == "pool" || ch.Name == "sched" {
+			return false, last, fmt.Errorf("the path depends on %s choices of the Go runtime that cannot be forced natively; deterministic engine replay only", ch.Name)
+		}
+	}
 	return false, last, nil
 }
 
